@@ -92,6 +92,7 @@ type Exec struct {
 	finishFn      func(outcome)
 	pendingForks  []*State
 	mergeBase     []string
+	recSink       *[]string // set while zzvp.AnyOf havocs a value: leaf symbols in creation order
 	mergeMark     int // object ids above this were allocated inside the region being merged
 	nameSink      *[]string // during a state merge: definitions of names given to large merged terms
 }
